@@ -96,9 +96,84 @@ sys.exit(0 if hits >= 4 else 1)
   return p.returncode
 
 
+def simcheck():
+  """Differential test of the simulator's collectives against real XLA shard_map:
+  random small SPMD bodies (ppermute incl. partial permutations, all_gather tiled /
+  stacked, axis_index on single and tuple axes) on 8 virtual devices must give
+  bit-identical results under dsim.spmd.Simulator (seeded faulty schedule)."""
+  code = '''
+import sys, random
+sys.path.insert(0, %r)
+import jax, numpy as np
+jax.config.update("jax_enable_x64", True)
+import jax.numpy as jnp
+from jax import lax
+from jax.experimental.shard_map import shard_map
+from dsim import spmd, spmd_engine
+P = jax.sharding.PartitionSpec
+rng = random.Random(11)
+bad = 0
+n = 0
+for case in range(60):
+  shape = rng.choice([(2, 2, 2), (1, 4, 2), (2, 4, 1), (1, 2, 4), (8, 1, 1), (1, 1, 8), (2, 1, 4)])
+  names = ("z", "x", "y")
+  sizes = dict(zip(names, shape))
+  real = jax.sharding.Mesh(np.array(jax.devices()[:8]).reshape(shape), names)
+  fake = spmd_engine.abstract_mesh(shape)
+  prog = []
+  for _ in range(rng.randint(1, 4)):
+    kind = rng.choice(["ppermute", "ppermute", "all_gather", "axis_index", "mix"])
+    ax = rng.choice(["z", "x", "y", ("x", "z"), ("z", "x"), ("x", "y")])
+    size = int(np.prod([sizes[a] for a in (ax if isinstance(ax, tuple) else (ax,))]))
+    if kind == "ppermute":
+      src = list(range(size)); dst = src[:]; rng.shuffle(dst)
+      keep = [i for i in range(size) if rng.random() < 0.8]
+      perm = [(src[i], dst[i]) for i in keep]
+      prog.append(("ppermute", ax, perm))
+    elif kind == "all_gather":
+      prog.append(("all_gather", ax, rng.choice([0, 1]), rng.random() < 0.5))
+    else:
+      prog.append((kind, ax))
+  def body(a, prog=prog):
+    for step in prog:
+      if step[0] == "ppermute":
+        a = a * 3 + lax.ppermute(a, step[1], perm=step[2])
+      elif step[0] == "all_gather":
+        g = lax.all_gather(a, step[1], axis=step[2], tiled=step[3])
+        a = (a + jnp.sum(g, axis=step[2], keepdims=True)[tuple(slice(0, s) for s in a.shape)].astype(a.dtype) * 5) if step[3] else (a + jnp.sum(g, axis=step[2]).astype(a.dtype) * 5)
+      elif step[0] == "axis_index":
+        a = a + lax.axis_index(step[1]).astype(a.dtype) * 7
+      else:
+        a = a * a + a * lax.axis_index(step[1]).astype(a.dtype) + 1
+    return a
+  spec = rng.choice([P("z", "x", "y"), P("z", None, "y"), P(None, ("x", "z"), "y"), P(("z", "x"), None, "y")])
+  x = np.random.RandomState(case).randint(-9, 9, size=(8, 8, 8)).astype(np.int32)
+  try:
+    want = np.asarray(jax.jit(shard_map(body, real, (spec,), spec, check_rep=False))(x))
+  except Exception as e:
+    continue   # program not accepted by real jax either (e.g. shape constraints)
+  sim = spmd.Simulator(spmd.Chooser(rng=random.Random(case)),
+                       {"p_delay": 0.3, "max_delay": 20, "p_stall": 0.02, "max_stall": 30, "p_dup": 0.05})
+  with jax.disable_jit():
+    got = np.asarray(sim.shard_map(body, fake, (spec,), spec, check_rep=False)(x))
+  n += 1
+  if got.shape != want.shape or not np.array_equal(got, want):
+    bad += 1
+    print("MISMATCH case", case, shape, spec, prog, int(np.max(np.abs(got.astype(np.int64) - want))) if got.shape == want.shape else (got.shape, want.shape))
+print("simulator vs real shard_map:", n, "programs compared,", bad, "mismatches")
+sys.exit(1 if bad or n < 20 else 0)
+''' % VERIF
+  env = dict(os.environ)
+  env['JAX_PLATFORMS'] = 'cpu'
+  env['XLA_FLAGS'] = '--xla_force_host_platform_device_count=8'
+  p = subprocess.run(['/venv/bin/python', '-c', code], capture_output=True, text=True, env=env)
+  print(p.stdout[-2500:], p.stderr[-1500:] if p.returncode else '')
+  return p.returncode
+
+
 def main():
   ap = argparse.ArgumentParser()
-  ap.add_argument('cmd', choices=['mutants', 'seeded', 'determinism', 'drop'])
+  ap.add_argument('cmd', choices=['mutants', 'seeded', 'determinism', 'drop', 'simcheck'])
   ap.add_argument('--prop', default='')
   ap.add_argument('--only', default='')
   ap.add_argument('--tier', default='quick')
@@ -111,6 +186,8 @@ def main():
     return determinism(args)
   if args.cmd == 'drop':
     return drop_selftest()
+  if args.cmd == 'simcheck':
+    return simcheck()
   if args.cmd == 'mutants':
     from mutants import defs
     todo = [m for m in defs.M if (not args.prop or m['property'] == args.prop)
